@@ -121,6 +121,10 @@ impl Spawner for StandardSpawner {
     }
 }
 
+#[cfg(pendulum_project_ntpd_rs_verif)]
+#[path = "/verif/hooks/ntpd/standard_probe.rs"]
+mod verif_probe;
+
 #[cfg(test)]
 mod tests {
     use ntp_proto::ProtocolVersion;
